@@ -6,6 +6,12 @@ export_rules  : Parser.rules  -> GAST grammar (what the front end actually built
 
 from __future__ import annotations
 
+ASCII_CLASSES = {
+    "ASCII_DIGIT", "ASCII_NONZERO_DIGIT", "ASCII_BIN_DIGIT", "ASCII_OCT_DIGIT", "ASCII_HEX_DIGIT", "ASCII_ALPHA_LOWER",
+    "ASCII_ALPHA_UPPER", "ASCII_ALPHA", "ASCII_ALPHANUMERIC", "ASCII",
+}
+CHARSET: set[int] = set()  # set by the caller before exporting grammars that use Unicode property rules
+
 UNARY = {"opt", "star", "plus", "exact", "min", "max", "minmax", "and", "not", "push", "tag"}
 NARY = {"seq", "alt"}
 
@@ -173,7 +179,14 @@ def export_expr(x, pest_mod):  # noqa: PLR0911, PLR0912
     if isinstance(x, EOI):
         return {"k": "eoi"}
     if isinstance(x, BuiltInRule):
-        return {"k": "cls", "n": x.name}
+        if x.name == "NEWLINE":
+            return {"k": "alt", "es": [{"k": "str", "s": [10]}, {"k": "str", "s": [13, 10]}, {"k": "str", "s": [13]}]}
+        if x.name in ASCII_CLASSES:
+            return {"k": "cls", "n": x.name}
+        # Unicode property rule: opaque in the specification; its extension over the characters that
+        # can occur (CHARSET) is computed with the regex library directly (third party, trusted)
+        rx = x.expression.regex
+        return {"k": "cset", "n": x.name, "cs": sorted(c for c in CHARSET if rx.fullmatch(chr(c)))}
     if isinstance(x, T.Identifier):
         if x.value == "EOI":
             return wrap(x, {"k": "eoi"})
